@@ -273,6 +273,90 @@ def pwl_reference(az, el, x):
 
 # ---------------------------------------------------------------- oracle on the real API
 
+def check_target(out, st, inp_s, a, f, lat, lon, alt, r, v, date, npath, skind="", tkind=""):
+    """one station, one Earth-fixed target: station-frame spherical/cartesian coordinates and the four measures vs the ENU reference"""
+    import numpy as np
+    from beyond.orbits import StateVector
+    from beyond.utils.measures import Range, Azimut, Elevation, Doppler
+    lat_d, lon_d = inp_s["latlonalt_deg_m"][:2]
+    ref = enu_reference(a, f, lat, lon, alt, r, v)
+    sv = StateVector(r + v, date, "cartesian", "ITRF")
+    t = sv.copy(frame=st, form="spherical")
+    inp = dict(inp_s, target_itrf=r + v, date=str(date))
+    rg = float(ref["range"])
+    hz = max(float(ref["horiz"]), 1e-30)
+    cosel = hz / rg
+    tol_r = 1e-6 + 2e-15 * rg + 4e-9
+    tol_az = 1e-10 + 4e-9 / hz
+    tol_el = 1e-10 + min(1e-15 / max(cosel, 1e-300), 5e-8) + 4e-9 / rg
+    out.count(key=("topo", lat_d, lon_d, tuple(r)), kind="topo-vs-enu", target=tkind, station=skind,
+              az_quadrant=int(((float(ref["az"]) % TWO_PI) // (math.pi / 2))), above=bool(ref["el"] > 0))
+    if not abs(float(t.r) - rg) <= tol_r:
+        out.fail("topo-range", "range in the station frame differs from the ENU range", inp, observed=float(t.r), expected=rg)
+    if not abs(float(t.phi) - float(ref["el"])) <= tol_el:
+        out.fail("topo-elevation", "phi in the station frame differs from the ENU elevation", inp, observed=float(t.phi), expected=float(ref["el"]))
+    if cosel > 1e-7 and not angdiff(-float(t.theta), ref["az"]) <= tol_az:
+        out.fail("topo-azimuth", "-theta in the station frame differs from the ENU azimuth (clockwise from north)", inp, observed=-float(t.theta), expected=float(ref["az"]))
+    tol_rr = 1e-9 + 1e-12 * float(np.linalg.norm(v)) + 1e-8 * float(np.linalg.norm(v)) / rg
+    if not abs(float(t.r_dot) - float(ref["rr"])) <= tol_rr:
+        out.fail("topo-range-rate", "r_dot in the station frame differs from d.v/|d| computed in the Earth-fixed frame", inp, observed=float(t.r_dot), expected=float(ref["rr"]))
+    # cartesian axes: x north, y west, z up
+    c = np.array(sv.copy(frame=st, form="cartesian"))[:3]
+    e, n, u = (float(q) for q in ref["enu"])
+    if not np.allclose(c, [n, -e, u], rtol=0, atol=tol_r):
+        out.fail("topo-axes", "cartesian coordinates in the station frame are not (north, west, up)", inp, observed=list(map(float, c)), expected=[n, -e, u])
+    # --- measures
+    path = tuple([st] + ["sat", st, "relay"][: npath - 1])
+    exp = {"Range": rg * (npath - 1), "Azimut": -float(ref["az"]), "Elevation": float(ref["el"]), "Doppler": float(ref["rr"])}
+    for cls in (Range, Azimut, Elevation, Doppler):
+        m = cls(path, date, 0.0).from_orbit(sv)
+        nm = cls.__name__
+        out.count(key=("meas", nm, npath, lat_d, tuple(r)), kind="measure-" + nm, path_len=npath)
+        val = float(m.value)
+        ok = {"Range": abs(val - exp[nm]) <= tol_r * (npath - 1),
+              "Azimut": cosel <= 1e-7 or angdiff(val, exp[nm]) <= tol_az,
+              "Elevation": abs(val - exp[nm]) <= tol_el,
+              "Doppler": abs(val - exp[nm]) <= tol_rr}[nm]
+        if not (ok and m.date == sv.date and m.path == path):
+            out.fail("measure-" + nm, f"{nm}.from_orbit value is not the topocentric quantity (range once per leg; azimuth stored as theta = -azimuth)",
+                     dict(inp, path_len=npath), observed=val, expected=exp[nm])
+
+
+def check_mask(out, st, az, el, x, mkind="", akind="random"):
+    """get_mask(x) on the table (az, el) vs the independent piecewise-linear interpolation"""
+    import numpy as np
+    st.mask = np.array([az, el], dtype=float)
+    exp, xr = pwl_reference(az, el, x)
+    out.count(key=("mask", tuple(az), x), kind="mask-" + akind, table=mkind, npoints=len(az), nontrivial=akind == "random")
+    try:
+        got = float(st.get_mask(x))
+    except Exception as e:  # noqa: BLE001
+        got = repr(e)
+    slope = max([abs((el[j + 1] - el[j]) / (az[j + 1] - az[j])) for j in range(len(az) - 1)] + [abs(el[0] - el[-1]) / az[0] if az[0] > 0 else 0.0])
+    # a table that gives a value at azimuth 0 itself is discontinuous there: skip the float-ambiguous neighbourhood
+    if az[0] <= 0 and (xr < 1e-9 or TWO_PI - xr < 1e-9) and akind != "multiple-of-2pi":
+        return
+    if not (isinstance(got, float) and abs(got - exp) <= 1e-12 + 1e-13 * slope + 1e-9 * slope * (akind == "tiny")):
+        seg = "wrap" if (az[0] > 0 and xr < az[0]) else ("hit" if xr in az else "interior")
+        out.fail("mask-interp-" + seg, "get_mask differs from the piecewise-linear interpolation of the table (2 pi value also serving at 0)",
+                 {"azimuths": list(az), "elevations": list(el), "azim": x, "akind": akind}, observed=got, expected=exp)
+
+
+def check_wgs84(out, st, inp_s, a, f, lat, lon, alt, date):
+    """the ellipsoid is WGS-84 (property text): a = 6378137 m, 1/f = 298.257223563"""
+    from beyond.orbits import StateVector
+    refw = enu_reference(WGS84_A, 1 / WGS84_INVF, lat, lon, alt, [0, 0, 0], [0, 0, 0])
+    tgt = [float(c) for c in (refw["s"] + 500e3 * refw["U"])]
+    refw = enu_reference(WGS84_A, 1 / WGS84_INVF, lat, lon, alt, tgt, [0, 0, 0])
+    t = StateVector(tgt + [0, 0, 0], date, "cartesian", "ITRF").copy(frame=st, form="spherical")
+    out.count(key=("wgs84",) + tuple(inp_s["latlonalt_deg_m"]), kind="wgs84-constants")
+    if not abs(float(t.r) - float(refw["range"])) <= 1e-6:
+        fam = "station-ellipsoid-radius" if (a != WGS84_A and abs(f - 1 / WGS84_INVF) < 1e-15) else "station-ellipsoid-constants"
+        out.fail(fam, "range to a point 500 km above the WGS-84 position of the station differs from 500 km: the station is placed on an ellipsoid "
+                 f"with equatorial radius {a!r} m, flattening 1/{1 / f!r} instead of WGS-84 (6378137 m, 1/298.257223563)",
+                 dict(inp_s, target_itrf=tgt), observed=float(t.r), expected=float(refw["range"]))
+
+
 def oracle(ctx, widened):
     import numpy as np
     from beyond.constants import Earth
@@ -285,8 +369,8 @@ def oracle(ctx, widened):
     big = widened or ctx.thorough
     a, f = float(Earth.r), float(Earth.f)
     d0 = Date(2021, 3, 4, 5, 6, 7)
-    n_st = 150 if big else 28
-    n_tg = 40 if big else 14
+    n_st = 400 if big else 60
+    n_tg = 40 if big else 16
     wgs_done = 0
     for k in range(n_st):
         lat_d, lon_d, alt, skind = gen_station(rng, k)
@@ -342,48 +426,7 @@ def oracle(ctx, widened):
         # --- targets: topocentric spherical coordinates vs ENU
         for _ in range(n_tg):
             r, v, tkind = gen_target(rng, [float(c) for c in ref0["s"]], [float(c) for c in ref0["U"]])
-            ref = enu_reference(a, f, lat, lon, alt, r, v)
-            sv = StateVector(r + v, date, "cartesian", "ITRF")
-            t = sv.copy(frame=st, form="spherical")
-            inp = dict(inp_s, target_itrf=r + v, date=str(date))
-            rg = float(ref["range"])
-            hz = max(float(ref["horiz"]), 1e-30)
-            cosel = hz / rg
-            tol_r = 1e-6 + 2e-15 * rg + 4e-9
-            tol_az = 1e-10 + 4e-9 / hz
-            tol_el = 1e-10 + min(1e-15 / max(cosel, 1e-300), 5e-8) + 4e-9 / rg
-            out.count(key=("topo", lat_d, lon_d, tuple(r)), kind="topo-vs-enu", target=tkind, station=skind,
-                      az_quadrant=int(((float(ref["az"]) % TWO_PI) // (math.pi / 2))), above=bool(ref["el"] > 0))
-            if not abs(float(t.r) - rg) <= tol_r:
-                out.fail("topo-range", "range in the station frame differs from the ENU range", inp, observed=float(t.r), expected=rg)
-            if not abs(float(t.phi) - float(ref["el"])) <= tol_el:
-                out.fail("topo-elevation", "phi in the station frame differs from the ENU elevation", inp, observed=float(t.phi), expected=float(ref["el"]))
-            if cosel > 1e-7 and not angdiff(-float(t.theta), ref["az"]) <= tol_az:
-                out.fail("topo-azimuth", "-theta in the station frame differs from the ENU azimuth (clockwise from north)", inp, observed=-float(t.theta), expected=float(ref["az"]))
-            tol_rr = 1e-9 + 1e-12 * float(np.linalg.norm(v)) + 1e-8 * float(np.linalg.norm(v)) / rg
-            if not abs(float(t.r_dot) - float(ref["rr"])) <= tol_rr:
-                out.fail("topo-range-rate", "r_dot in the station frame differs from d.v/|d| computed in the Earth-fixed frame", inp, observed=float(t.r_dot), expected=float(ref["rr"]))
-            # cartesian axes: x north, y west, z up
-            c = np.array(sv.copy(frame=st, form="cartesian"))[:3]
-            e, n, u = (float(q) for q in ref["enu"])
-            if not np.allclose(c, [n, -e, u], rtol=0, atol=tol_r):
-                out.fail("topo-axes", "cartesian coordinates in the station frame are not (north, west, up)", inp, observed=list(map(float, c)), expected=[n, -e, u])
-            # --- measures
-            npath = rng.choice([2, 3, 3, 4])
-            path = tuple([st] + ["sat", st, "relay"][: npath - 1])
-            exp = {"Range": rg * (npath - 1), "Azimut": -float(ref["az"]), "Elevation": float(ref["el"]), "Doppler": float(ref["rr"])}
-            for cls in (Range, Azimut, Elevation, Doppler):
-                m = cls(path, date, 0.0).from_orbit(sv)
-                nm = cls.__name__
-                out.count(key=("meas", nm, npath, lat_d, tuple(r)), kind="measure-" + nm, path_len=npath)
-                val = float(m.value)
-                ok = {"Range": abs(val - exp[nm]) <= tol_r * (npath - 1),
-                      "Azimut": cosel <= 1e-7 or angdiff(val, exp[nm]) <= tol_az,
-                      "Elevation": abs(val - exp[nm]) <= tol_el,
-                      "Doppler": abs(val - exp[nm]) <= tol_rr}[nm]
-                if not (ok and m.date == sv.date and m.path == path):
-                    out.fail("measure-" + nm, f"{nm}.from_orbit value is not the topocentric quantity (range once per leg; azimuth stored as theta = -azimuth)",
-                             dict(inp, path_len=npath), observed=val, expected=exp[nm])
+            check_target(out, st, inp_s, a, f, lat, lon, alt, r, v, date, rng.choice([2, 3, 3, 4]), skind, tkind)
         # --- target given in an inertial frame: the direct change to the station frame agrees with going through ITRF first
         if k % 2 == 0:
             fr = rng.choice(["EME2000", "TEME", "GCRF", "TOD"])
@@ -403,42 +446,17 @@ def oracle(ctx, widened):
                 out.fail("topo-from-inertial-" + fr, "station-frame coordinates of an inertial state differ from ENU applied to its Earth-fixed image",
                          dict(inp_s, frame=fr, state=x, date=str(date)), observed=[float(t.r), float(t.theta), float(t.phi), float(t.r_dot)],
                          expected=[rg, -float(ref["az"]), float(ref["el"]), float(ref["rr"])])
-        # --- the ellipsoid is WGS-84 (property text): a = 6378137 m, 1/f = 298.257223563
         if wgs_done < 3:
             wgs_done += 1
-            refw = enu_reference(WGS84_A, 1 / WGS84_INVF, lat, lon, alt, [0, 0, 0], [0, 0, 0])
-            tgt = [float(c) for c in (refw["s"] + 500e3 * refw["U"])]
-            refw = enu_reference(WGS84_A, 1 / WGS84_INVF, lat, lon, alt, tgt, [0, 0, 0])
-            t = StateVector(tgt + [0, 0, 0], date, "cartesian", "ITRF").copy(frame=st, form="spherical")
-            out.count(key=("wgs84", lat_d, lon_d, alt), kind="wgs84-constants")
-            if not abs(float(t.r) - float(refw["range"])) <= 1e-6:
-                fam = "station-ellipsoid-radius" if (a != WGS84_A and abs(f - 1 / WGS84_INVF) < 1e-15) else "station-ellipsoid-constants"
-                out.fail(fam, "range to a point 500 km above the WGS-84 position of the station differs from 500 km: the station is placed on an ellipsoid "
-                         f"with equatorial radius {a!r} m, flattening 1/{1 / f!r} instead of WGS-84 (6378137 m, 1/298.257223563)",
-                         dict(inp_s, target_itrf=tgt), observed=float(t.r), expected=float(refw["range"]))
+            check_wgs84(out, st, inp_s, a, f, lat, lon, alt, date)
         drop_station(st)
     # --- horizon mask
     st = new_station(10.0, 20.0, 30.0)
-    n_tab = 400 if big else 60
+    n_tab = 3000 if big else 150
     for i in range(n_tab):
         az, el, mkind = gen_mask(rng)
-        st.mask = np.array([az, el])
         for x, akind in gen_azimuths(rng, az, 12):
-            exp, xr = pwl_reference(az, el, x)
-            out.count(key=("mask", tuple(az), x), kind="mask-" + akind, table=mkind, npoints=len(az), nontrivial=akind == "random")
-            try:
-                got = float(st.get_mask(x))
-            except Exception as e:  # noqa: BLE001
-                got = repr(e)
-            slope = max([abs((el[j + 1] - el[j]) / (az[j + 1] - az[j])) for j in range(len(az) - 1)] + [abs(el[0] - el[-1]) / az[0] if az[0] > 0 else 0.0])
-            # a table that gives a value at azimuth 0 itself is discontinuous there: skip the two float-ambiguous points
-            ambiguous = mkind == "conv-first-zero" and (xr < 1e-9 or TWO_PI - xr < 1e-9) and akind != "multiple-of-2pi"
-            if ambiguous:
-                continue
-            if not (isinstance(got, float) and abs(got - exp) <= 1e-12 + 1e-14 * slope * 10 + 1e-9 * slope * (akind == "tiny")):
-                seg = "wrap" if (az[0] > 0 and xr < az[0]) else ("hit" if xr in az else "interior")
-                out.fail("mask-interp-" + seg, "get_mask differs from the piecewise-linear interpolation of the table (2 pi value also serving at 0)",
-                         {"azimuths": az, "elevations": el, "azim": x}, observed=got, expected=exp)
+            check_mask(out, st, az, el, x, mkind, akind)
     drop_station(st)
     out.sample({"checks": "ellipsoid membership + normal, position formula, rest in ITRF/PEF/TIRF, omega x r in TOD/CIRF, finite-difference velocity in inertial frames, "
                           "range/elevation/azimuth/range-rate/axes vs extended-precision ENU, the four measures, inertial targets, WGS-84 constants, mask vs np.interp"})
@@ -632,8 +650,8 @@ def correspondence(ctx):
     add("c11const", lambda rep: _cmp(out, "constants", "Earth.r / Earth.f / Earth.e", {}, [Earth.r, Earth.f, Earth.e], rep, [0.0, 1e-18, 1e-16]))
     out.count(key="c11const", nontrivial=False, kind="constants")
     date0 = Date(2022, 2, 3, 4, 5, 6)
-    n_st = ctx.n(60, 1500)
-    n_tg = ctx.n(12, 40)
+    n_st = ctx.n(120, 2000)
+    n_tg = ctx.n(14, 40)
     MEAS = [Range, Azimut, Elevation, Doppler]
     for k in range(n_st):
         lat_d, lon_d, alt, skind = gen_station(rng, k)
@@ -720,7 +738,7 @@ def correspondence(ctx):
         if not core.close(got, mv, rtol=1e-12, atol=1e-13):
             out.fail("mask", "get_mask differs from the Lean model of its scan loop", inp, observed=got, expected=mv)
 
-    for i in range(ctx.n(250, 8000)):
+    for i in range(ctx.n(500, 12000)):
         u = rng.random()
         az, el, mkind = gen_mask(rng) if u < 0.8 else gen_mask_unconventional(rng)
         if i == 0:
@@ -743,3 +761,33 @@ def correspondence(ctx):
             out.sample({"request": req[:100] + "…", "model": rep[:80]}, limit=3)
     out.notes.append(f"get_mask: {exact[1]} of {exact[0]} values bit-identical between numpy and the compiled model")
     return out
+
+
+def replay(failure):
+    """re-run the recorded failing input of an oracle family against the current tree"""
+    from beyond.constants import Earth
+    from beyond.dates import Date
+    _setup()
+    out = Outcome()
+    fam, inp = failure["family"], failure["input"]
+    a, f = float(Earth.r), float(Earth.f)
+    date = Date(2021, 3, 4, 5, 6, 7)
+    if fam.startswith("mask-interp") and isinstance(inp, dict) and "azimuths" in inp:
+        st = new_station(10.0, 20.0, 30.0)
+        check_mask(out, st, inp["azimuths"], inp["elevations"], inp["azim"], akind=inp.get("akind", "random"))
+        drop_station(st)
+        return out
+    if isinstance(inp, dict) and "latlonalt_deg_m" in inp and "target_itrf" in inp:
+        lat_d, lon_d, alt = inp["latlonalt_deg_m"]
+        st = new_station(lat_d, lon_d, alt)
+        lat, lon = math.radians(lat_d), math.radians(lon_d)
+        inp_s = {"latlonalt_deg_m": [lat_d, lon_d, alt]}
+        if fam.startswith("station-ellipsoid"):
+            check_wgs84(out, st, inp_s, a, f, lat, lon, alt, date)
+        else:
+            t = [float(c) for c in inp["target_itrf"]]
+            check_target(out, st, inp_s, a, f, lat, lon, alt, t[:3], t[3:], date, int(inp.get("path_len", 3)))
+        drop_station(st)
+        out.failures = [x for x in out.failures if x["family"] == fam] or out.failures
+        return out
+    return oracle(core.Ctx(ID, "quick", 0), False)
